@@ -42,6 +42,59 @@ def gen_history(rng, growth):
     return ops
 
 
+def gen_pregrown_history(rng):
+    """the file is grown once and a checkpoint is forced; everything after it stays inside the file: the suffix after the
+    checkpoint satisfies the hypotheses of C04_recover_is_prefix (no _onresize call inside an operation), which the model
+    then evaluates on the traced calls (theorem_instance_*)"""
+    ops = ["n1", "p1:%s:%d:1" % (W.khex("zz"), 30000 + rng.below(3000)), "d1:%s" % W.khex("zz"), "c"]
+    budget = 9000
+    live = {}
+    for _ in range(rng.range(14, 36)):
+        r = rng.below(100)
+        if r < 62:
+            k = rng.choice(KEYS)
+            vl = rng.weighted([(0, 1), (5, 4), (20, 6), (100, 4), (700, 2), (1500, 1), (3000, 1)])
+            old = live.get(k, 0)
+            if budget - vl + old < 0:
+                vl = 5
+            budget += old - vl
+            live[k] = vl
+            ops.append("p1:%s:%d:%d" % (W.khex(k), vl, rng.below(250)))
+        elif r < 80:
+            k = rng.choice(KEYS)
+            budget += live.pop(k, 0)
+            ops.append("d1:%s" % W.khex(k))
+        elif r < 94:
+            ops.append("s")
+        else:
+            ops.append("c")
+    return ops
+
+
+def gen_big_history(rng):
+    """a store that outgrows 4 MiB (the allocator's bitmap is doubled and relocated), synced; the kill comes after the last
+    sync and the recovered store is then WRITTEN to (second session): allocations after a recovery must not land on
+    live records"""
+    ops = ["n1"]
+    n = rng.range(9, 12)
+    for i in range(n):
+        ops.append("p1:%s:%d:%d" % (W.khex("big%02d" % i), 470000 + rng.below(40000), rng.below(250)))
+        if rng.chance(1, 4):
+            ops.append("s")
+    ops += ["s", "p1:%s:20:7" % W.khex("k01"), "d1:%s" % W.khex("big00"), "s"]
+    return ops
+
+
+def gen_close_fault_history(rng):
+    """unsynced work, then iwkv_close whose first (or second) write to the log fails with EFBIG: the close must report
+    the failure, or everything must be there at the next open"""
+    ops = ["n1", "p1:%s:100:3" % W.khex("k01"), "s"]
+    for _ in range(rng.range(2, 8)):
+        ops.append("p1:%s:%d:%d" % (W.khex(rng.choice(KEYS)), rng.choice([5, 20, 100, 700]), rng.below(250)))
+    ops.append("Q%d" % rng.choice([1, 1, 1, 2]))
+    return ops
+
+
 def ref_states(ops):
     """S[k] = canonical state after the first k operations"""
     r = W.Ref()
@@ -70,7 +123,7 @@ def allowed_prefixes(ops, tr):
             inflight = True
             break
         done = i + 1
-        if ops[i][0] in "scnq" and o["rc"] == "0":      # q: iwkv_close returned - everything is durable
+        if ops[i][0] in "scnqQ" and o["rc"] == "0":     # q/Q: iwkv_close returned success - everything is durable
             last_sync = i + 1
     return last_sync, done + (1 if inflight else 0), done, inflight
 
@@ -137,7 +190,7 @@ def growth_class(ops, full, killat):
         a, b = o["fx0"], o["fx1"]
         ev = []
         wr = [j for j in range(a, b) if fx[j][1] == "W" and fx[j][0] == W_WRITE]
-        if ops[i][0] in "pdnq":     # q: iwkv_close trims the file (shrink) - also a checkpoint without savepoint
+        if ops[i][0] in "pdnqQ":    # q: iwkv_close trims the file (shrink) - also a checkpoint without savepoint
             for j in range(a, b):
                 if fx[j][1] == "M" and fx[j][0] in (W_FTRUNCATE, W_FALLOCATE):
                     before = [w for w in wr if w < j]
@@ -193,25 +246,32 @@ SESSION2 = ["n3", "p3:%s:9:1" % W.khex("x1"), "p3:%s:700:2" % W.khex("x2"), "d3:
 SESSION2_DB3 = "db3{%s=%s}" % (W.khex("x2"), W.vrepr(W.genval(700, 2)))
 
 
-def crash_state_t2(run, model, pred, name, crc, k, mdir, impl_wal_line):
-    """kill model + theorem instance: Proto.after_effects (first i effects of Proto.run on the traced calls) must be the
-    files the process killed before its k-th effect left behind (log: timestamps and segment checksums masked), and
-    where the traced history satisfies the hypotheses of C04_recover_is_prefix its conclusion must hold of the model's
-    own recovery of these files (a failure there is a defect of the framework, not of the library)"""
+def crash_state_prepare(pred, name, crc, k, mdir, impl_wal_line):
+    """kill model + theorem instance, first half: the model command for the crash point and what the killed process left"""
     import zlib
     fulldir, full, mode = pred
     i = W.model_index(full["fx"], k, mode == "hook")
+    if mode == "hook" and 0 <= k < len(full["fx"]) and full["fx"][k][1] == "R":
+        i += 1          # the record-level hook fires AFTER the store into the shared mapping: that record is in the file
     bufsz = (4096 if crc & 2 else 8 * 1024 * 1024) - 12
-    rc, out, err = vlib.run_lines(W.big_stack(model), "crash %s %d %d %d\n" % (fulldir, crc, bufsz, i), timeout=300)
-    f = W.fields(out[0]) if out and out[0].startswith("crash") else None
-    if not f:
-        run.dist("crash_state_model_no_answer")
-        if len(run.broken) < 6:
-            run.broken.append("T2 (kill model) %s kill %d: model gave no answer: %s %s" % (name, k, out[:1], err[-200:]))
-        return
     wal = open(os.path.join(mdir, "db-wal"), "rb").read()
     db = open(os.path.join(mdir, "db"), "rb").read()
     real = {"log": W.masked_log_crc(wal), "disk": "%d:%08x" % (len(db), zlib.crc32(db) & 0xffffffff)}
+    return {"cmd": "crash %s %d %d %d" % (fulldir, crc, bufsz, i), "name": name, "k": k, "i": i, "real": real, "impl": impl_wal_line}
+
+
+def crash_state_finish(run, p, line):
+    """second half: Proto.after_effects (first i effects of Proto.run on the traced calls) must be the files the process
+    killed before its k-th effect left behind (log: timestamps and segment checksums masked), and where the traced
+    history satisfies the hypotheses of C04_recover_is_prefix its conclusion must hold of the model's own recovery of
+    these files (a failure there is a defect of the framework, not of the library)"""
+    name, k, i, real, impl_wal_line = p["name"], p["k"], p["i"], p["real"], p["impl"]
+    f = W.fields(line) if line.startswith("crash") else None
+    if not f:
+        run.dist("crash_state_model_no_answer")
+        if len(run.broken) < 6:
+            run.broken.append("T2 (kill model) %s kill %d: model gave no answer: %s" % (name, k, line[:200]))
+        return
     diff = [x for x in ("log", "disk") if f.get(x) != real[x]]
     fi = W.fields(impl_wal_line)
     if f.get("rc") != fi.get("rc") or (fi.get("rc") == "0" and f.get("main") != fi.get("main")):
@@ -223,16 +283,15 @@ def crash_state_t2(run, model, pred, name, crc, k, mdir, impl_wal_line):
                               name, k, i, ",".join(diff), f.get("log"), f.get("disk"), f.get("rc"), f.get("main"), real["log"], real["disk"], impl_wal_line[:90]))
     elif not diff:
         run.cov["traces_validated_against_impl"] += 1
-    hyp = f.get("hyp", "")
-    run.dist("theorem_instance_%s" % ("hypotheses_hold" if hyp == "11111" else
-                                        "na_growth_in_operation" if len(hyp) == 5 and hyp[1] == "0" else "na_other_%s" % hyp))
-    if f.get("thm") not in ("ok", "n/a"):
+    thm = f.get("thm", "")
+    run.dist("theorem_instance_%s" % {"ok": "conclusion_ok", "n/a-growth": "na_growth_not_followed_by_checkpoint",
+                                      "n/a-before": "na_crash_point_before_the_growth_free_part", "n/a-hyp": "na_hypotheses_%s" % f.get("hyp"),
+                                      "n/a-not-fresh": "na_not_fresh"}.get(thm, "fails"))
+    if thm != "ok" and not thm.startswith("n/a"):
         run.dist("theorem_instance_fails")
         if len(run.broken) < 6:
             run.broken.append("C04_recover_is_prefix evaluated on a real trace does not hold (%s kill %d: %s) - the extracted model, the driver "
-                              "or the proof environment is broken" % (name, k, out[0][:200]))
-    elif f.get("thm") == "ok":
-        run.dist("theorem_instance_conclusion_ok")
+                              "or the proof environment is broken" % (name, k, line[:200]))
 
 
 def crash_cases(run, impl, wd, name, crc, ops, kills, model=None, pred=None):
@@ -274,6 +333,7 @@ def crash_cases(run, impl, wd, name, crc, ops, kills, model=None, pred=None):
         idx[c].append((ci, len(lines), nrec, cont, t2))
     outs = W.par_lines(impl, chunks)
     res = [None] * n
+    pending = []
     for c in range(nch):
         p = 0
         for ci, nl, nrec, cont, t2 in idx[c]:
@@ -291,7 +351,7 @@ def crash_cases(run, impl, wd, name, crc, ops, kills, model=None, pred=None):
                 if fi.get("applied", "-") != "-" and fi.get("applied") != fm.get("applied"):
                     diff.append("applied")
                 if pred is not None:
-                    crash_state_t2(run, model, pred, name, crc, kills[ci][0], os.path.join(d, "m"), ls[3])
+                    pending.append(crash_state_prepare(pred, name, crc, kills[ci][0], os.path.join(d, "m"), ls[3]))
                 has_mark = b"\x7f\x00\x00\x00\x00\x00\x00\x00\x04\x00\x00\x00\x06\x00\x00\x00" in open(os.path.join(d, "m", "db-wal"), "rb").read()
                 run.dist("recovery_predicted_%s%s" % ("ok" if not diff else "differs", "_log_with_reset_mark" if has_mark else ""))
                 if diff and len(run.broken) < 6:
@@ -301,6 +361,12 @@ def crash_cases(run, impl, wd, name, crc, ops, kills, model=None, pred=None):
                     run.cov["traces_validated_against_impl"] += 1
             res[ci] = (tr, ls[nrec - 1] if len(ls) >= nrec else "<missing>", ls, contres)
             shutil.rmtree(d, ignore_errors=True)
+    if pending:
+        nchm = max(1, min(vlib.NCPU, len(pending)))
+        mo = W.par_lines(W.big_stack(model), [[p["cmd"] for p in pending[c::nchm]] for c in range(nchm)], timeout=600)
+        for c in range(nchm):
+            for j, p in enumerate(pending[c::nchm]):
+                crash_state_finish(run, p, mo[c][j] if j < len(mo[c]) else "<missing>")
     return res
 
 
@@ -361,7 +427,29 @@ def proto_t2(run, model, mode, d, crc, ops, full):
     return None
 
 
-def do_history(run, impl, wd, name, crc, ops, nfirst, nlater, rec_kills, corpus_kills=None, model=None, mode="wrap", ncont=12, ncross=0, ncrash_t2=4):
+def close_fault_case(run, impl, wd, name, crc, ops):
+    """history ending in Q<k>: run to the end (the close returns, with or without error), reopen, judge: a close that
+    returned 0 counts as a sync of everything"""
+    res = crash_cases(run, impl, wd, name, crc, ops, [(-1, None, True, False)])[0]
+    tr, recline, ls, contres = res
+    o = tr["ops"].get(len(ops) - 1, {})
+    run.dist("close_under_write_fault_returns_%s" % ("0" if o.get("rc") == "0" else "error" if o.get("rc") else "nothing"))
+    run.case("%s|%d|closefault" % (" ".join(ops), crc), nontrivial=True)
+    ok, why, rng_, got = judge(ops, ref_states(ops), tr, recline)
+    if ok and contres is not None:
+        why2 = judge_continuation(recline, contres)
+        if why2:
+            ok, why = False, why2
+    if ok:
+        run.cov["traces_validated_against_impl"] += 1
+        return
+    if o.get("rc") == "0":
+        why = "iwkv_close returned 0 although a write to the log failed inside it (EFBIG), and %s" % why
+    run.violation({"ops": ops, "crc": crc, "killat": -1, "effects": None, "rec_kill": None, "class": "close-fault", "rec_cfg": None,
+                   "second_session": SESSION2, "admissible_prefixes": list(rng_), "impl": recline[:3000], "recovered": got}, why)
+
+
+def do_history(run, impl, wd, name, crc, ops, nfirst, nlater, rec_kills, corpus_kills=None, model=None, mode="wrap", ncont=12, ncross=0, ncrash_t2=4, tail_only=False):
     rng = run.rng
     d, line, full = full_run(impl, wd, name, crc, ops)
     if line != "run exit=0" or full["nfx"] is None:
@@ -392,6 +480,14 @@ def do_history(run, impl, wd, name, crc, ops, nfirst, nlater, rec_kills, corpus_
     if corpus_kills is not None:
         # [killat, rec_kill] or [killat, rec_kill, [r1, r2]] (options of the recovering sessions, see crash_cases)
         kills = [(N if x[0] == "end" else x[0], x[1], True, False, tuple(x[2]) if len(x) > 2 and x[2] else None) for x in corpus_kills]
+    elif tail_only:
+        # crash points after the last successful sync (and the end of the run), each continued into a second session
+        lastsync = max([o["fx1"] for i, o in full["ops"].items() if ops[i][0] in "scn" and o.get("rc") == "0" and "fx1" in o] + [0])
+        tail = list(range(lastsync, N + 1))
+        for i in range(len(tail) - 1, 0, -1):
+            j = rng.below(i + 1)
+            tail[i], tail[j] = tail[j], tail[i]
+        kills = [(k, None, True, False) for k in sorted(set(tail[:nlater] + [N, lastsync]))]
     else:
         pts = list(range(0, min(N, nfirst) + 1))
         if N > nfirst:
@@ -525,8 +621,9 @@ def check(run):
         for h in range(nh):
             crc = run.rng.choice([0, 0, 1, 2, 3])
             growth = (h % 3 == 2) if run.tier == "quick" else run.rng.chance(1, 2)
-            ops = gen_history(run.rng, growth)
-            run.dist("history_%s" % ("growth" if growth else "no_growth"))
+            pregrown = not growth and h % 3 == 0
+            ops = gen_pregrown_history(run.rng) if pregrown else gen_history(run.rng, growth)
+            run.dist("history_%s" % ("pregrown_then_inside_the_file" if pregrown else "growth" if growth else "no_growth"))
             do_history(run, impl, wd, "h%d" % h, crc, ops, nfirst, nlater, rk, model=model, mode=mode, ncross=ncross)
         for h in range((10 if run.tier == "quick" else 150) * mult):
             crc = run.rng.choice([0, 1, 2, 4, 4, 5, 6])     # bit 4: IWKV_NO_TRIM_ON_CLOSE
@@ -538,6 +635,17 @@ def check(run):
             ops = gen_backup_history(run.rng)
             run.dist("history_inside_online_backup")
             do_history(run, impl, wd, "hb%d" % h, crc, ops, nfirst, nlater, 6, model=model, mode=mode, ncont=6, ncross=ncross // 2)
+        for h in range((2 if run.tier == "quick" else 20) * mult):
+            crc = run.rng.choice([0, 1])
+            ops = gen_big_history(run.rng)
+            run.dist("history_store_beyond_4MiB")
+            # no model here (main files of several MB as Coq lists): crash points after the last sync + second session
+            do_history(run, impl, wd, "hg%d" % h, crc, ops, 0, 6, 0, model=None, mode=mode, ncont=8, ncross=0, tail_only=True)
+        for h in range((4 if run.tier == "quick" else 40) * mult):
+            crc = run.rng.choice([0, 1, 2, 4])
+            ops = gen_close_fault_history(run.rng)
+            run.dist("history_close_under_write_fault")
+            close_fault_case(run, impl, wd, "hq%d" % h, crc, ops)
     finally:
         shutil.rmtree(wd, ignore_errors=True)
     return run.finish(level=LEVEL,
